@@ -19,6 +19,49 @@ theorem C09_unique (F : Facts) (n : Nat) (ls : List Label) (s : Srv) (hr : run F
 theorem C09_current (n : Nat) (ls : List Label) (s : Srv) (hr : run Gldap.Generated.serverFacts (init n) ls = some s) :
     (s.conns.map (·.id)).Nodup ∧ ∀ c ∈ s.conns, 0 < c.id ∧ c.id ≤ s.nextConn := C09_unique _ n ls s hr
 
+/-! ### the counter is a Go `int`, not a natural number
+
+The model counts in `Nat`; the code counts in a 64-bit `int`. `wrapInt w` is what a `w`-bit two's-complement counter
+holds after `k` increments from 0. As long as fewer than 2^(w-1) loop iterations have happened the two agree, so the
+ids stay positive and distinct; at 2^(w-1) a `w`-bit counter turns negative - which is why a narrower counter (or one
+that is reset) breaks the property on a long-lived server. -/
+
+def wrapInt (w : Nat) (k : Nat) : Int :=
+  let m := k % 2 ^ w
+  if m < 2 ^ (w - 1) then (m : Int) else (m : Int) - (2 ^ w : Nat)
+
+theorem wrapInt_faithful (w k : Nat) (hw : 0 < w) (hk : k < 2 ^ (w - 1)) : wrapInt w k = (k : Int) := by
+  unfold wrapInt
+  have h2 : 2 ^ w = 2 * 2 ^ (w - 1) := by
+    obtain ⟨v, rfl⟩ : ∃ v, w = v + 1 := ⟨w - 1, by omega⟩
+    simp [Nat.pow_succ, Nat.mul_comm]
+  have hm : k % 2 ^ w = k := Nat.mod_eq_of_lt (by omega)
+  simp only [hm, hk, if_true]
+
+/-- ids handed out by a 64-bit counter: positive and pairwise distinct for the first 2^63 - 1 accept-loop iterations -/
+theorem C09_int64 (F : Facts) (n : Nat) (ls : List Label) (s : Srv) (hr : run F (init n) ls = some s)
+    (hbound : s.nextConn < 2 ^ 63) :
+    ((s.conns.map (·.id)).map (wrapInt 64)).Nodup ∧ ∀ c ∈ s.conns, 0 < wrapInt 64 c.id := by
+  obtain ⟨hn, hp⟩ := C09_unique F n ls s hr
+  have hf : ∀ c ∈ s.conns, wrapInt 64 c.id = (c.id : Int) :=
+    fun c hc => wrapInt_faithful 64 c.id (by decide) (by have := (hp c hc).2; omega)
+  constructor
+  · rw [List.map_map]
+    have : s.conns.map (wrapInt 64 ∘ (·.id)) = s.conns.map (fun c => (c.id : Int)) :=
+      List.map_congr_left (fun c hc => by simp [Function.comp, hf c hc])
+    rw [this]
+    have h2 : s.conns.map (fun c => (c.id : Int)) = (s.conns.map (·.id)).map (fun k : Nat => (k : Int)) := by
+      rw [List.map_map]; rfl
+    rw [h2]
+    exact List.Pairwise.map (fun k : Nat => (k : Int)) (fun a b h e => h (Int.ofNat.inj e)) hn
+  · intro c hc
+    rw [hf c hc]
+    have := (hp c hc).1
+    exact_mod_cast this
+
+/-- a 16-bit counter: after 2^15 iterations the id is negative, after 2^16 it is 0 again -/
+example : wrapInt 16 32768 = -32768 ∧ wrapInt 16 65536 = 0 ∧ wrapInt 16 65537 = wrapInt 16 1 := by decide
+
 /-- non-vacuity: two connections, the first closed before the second is accepted -/
 example : (run goodFacts (init 0) [.runListen true, .runLoopTop, .runAcceptOk, .runSpawn, .connExit 1, .teardown 1,
     .teardown 1, .teardown 1, .runLoopTop, .runAcceptOk, .runSpawn]).map (fun s => s.conns.map (·.id)) = some [1, 2] := by decide
